@@ -345,19 +345,9 @@ const knownFromjson = "c07-fromjson-decode-value-index"
 const preludeArg = `def _c07_fq_fromjson: fromjson; def fromjson: (if _exttype == "decode_value" and type == "string" then tovalue end) | _c07_fq_fromjson; `
 const preludeRes = `def _c07_fq_fromjson: fromjson; def fromjson: (if _exttype == "decode_value" and type == "string" then tovalue end) | _c07_fq_fromjson | tovalue; `
 
-var knownKeys = []string{knownFromjson, knownFromjsonArg, knownSplitUTF8}
-
-// c07-split-invalid-utf8-separator (PROPOSED key; a violation until it is listed in known_findings.json):
-// split/1 whose separator string is not valid UTF-8 fails in fq (the regex engine rejects the quoted pattern)
-// where gojq's strings.Split succeeds. The prelude sends exactly such separators to the captured builtin and
-// everything else to fq's own implementation.
-const knownSplitUTF8 = "c07-split-invalid-utf8-separator"
-const preludeSplitUTF8 = `def split($val): if ($val | type) == "string" and (($val | explode | implode) != $val) then _orig_split($val) else [splits($val | _re_quote_meta)] end; `
+var knownKeys = []string{knownFromjson, knownFromjsonArg}
 
 func classify(prog string, agrees func(prelude string) bool) string {
-	if strings.Contains(prog, "split(") && agrees(preludeSplitUTF8) {
-		return knownSplitUTF8
-	}
 	if !strings.Contains(prog, "fromjson") {
 		return ""
 	}
